@@ -191,7 +191,8 @@ pub fn do_call(ts: &mut TypeSpace, call: &Value) -> (String, u64, Option<TypeId>
 /// public-API projection of one type: what a caller can observe through
 /// name()/ident()/details()
 pub fn public_proj(ts: &TypeSpace, t: &Type) -> Value {
-    let name = guarded(|| t.name()).unwrap_or_else(|_| "<panic>".into());
+    let name: String = guarded(|| t.name()).unwrap_or_else(|_| "<panic>".into());
+    let name: String = name.chars().filter(|c| !c.is_whitespace()).collect::<String>().replace(",>", ">");
     let ident = guarded(|| inv::norm_tokens(&t.ident())).unwrap_or_else(|_| "<panic>".into());
     let mut kind = "";
     let mut edges: Vec<Value> = vec![];
